@@ -193,6 +193,21 @@ ROUND6: dict[str, str] = {
 for _pid, _text in ROUND6.items():
     META[_pid]["level"] += " " + _text
 
+# Fifth round of seeded changes (DESIGN.md 9.17)
+ROUND7: dict[str, str] = {
+    "C01": "Fifth seeded round: the step that completes the amplitude table must run on every formulate(): a call site of it (or an earlier return) under a guard that does not derive from the projection pools is a violation, a guard computed from the pools leaves the clause undecided.",
+    "C06": "Fifth seeded round: attrs `field(default=<mutable>)` is the same shared object as a mutable literal default.",
+    "C08": "Fifth seeded round: along the einsum printers and the package functions that receive their operands, the operand sequence is never collapsed to the distinct operands and read back as a collection (R-OPERANDS; role flow shared with C18 R-MULTISET).",
+    "C09": "Fifth seeded round: a memoised builder may write into the matrix it builds, not into the result of another memoised builder.",
+    "C10": "Fifth seeded round: as C09 (a memoised builder that rescales the cached result of another memoised builder in place is reported).",
+    "C14": "Fifth seeded round: the argument hook is interpreted on field layouts with optional fields too (instance holds the default object itself / another value, every combination for up to two optional trailing fields).",
+    "C15": "Fifth seeded round: as C14 - the pickle arguments may leave out only trailing fields that hold their default.",
+    "C18": "Fifth seeded round: along __new__ / evaluate / cleanup / doit and the package functions they call (roles: pairs, pools, pool, value, symbols propagated through locals, comprehensions and call arguments), the values of a pool are never collapsed to the distinct ones (set, dict key, dict.fromkeys) and then iterated, counted or returned (R-MULTISET); a memo that is only looked up is accepted; collapsing plus counting is undecided.",
+    "C20": "Fifth seeded round: Kibble compared with a non-zero number (also through a parameter's default) is a violation - the indicator's boundary is Kibble = 0.",
+}
+for _pid, _text in ROUND7.items():
+    META[_pid]["level"] += " " + _text
+
 TECHNIQUE_SUFFIX = {
     "C02": "; abstract evaluation of the fold chain into structural terms (sa/symex.py)",
     "C04": "; abstract evaluation of the rotation chain into structural terms",
@@ -204,6 +219,8 @@ TECHNIQUE_SUFFIX = {
     "C14": "; abstract interpretation of the decorator and its hooks over model objects (finite domain of field and rule kinds, exhaustively enumerated)",
     "C15": "; abstract interpretation of the pickle hooks over model objects; sequence-length analysis",
     "C17": "; closed forms by call inlining; abstract interpretation of the symbol universe",
+    "C18": "; flow-insensitive role propagation (pairs / pools / values) with a who-reads-the-deduplicated-container rule",
+    "C01": "; must-execute check of the completion step over guarded call sites",
 }
 for _pid, _text in TECHNIQUE_SUFFIX.items():
     META[_pid]["technique"] += _text
